@@ -56,7 +56,8 @@ def rule_a(ctx):
             pre = all((abb == wbb and asi < wsi) or (abb in dom[wbb] and abb != wbb) for (wbb, wsi) in wr)
             ctx.check(from_next and pre and wr, rid, "id:pre-increment@%s" % keyname(r.name), "the id is the value of next_id read before the increment", rv.get("sp") or r.span,
                       {"from_next_id": from_next, "read_before_increment": pre})
-        stores = [bb for bb, t in r.calls() if t.get("f") is not None and F.inst[t["f"]].name == "signal_hook_registry::half_lock::WriteGuard::<'_, %s>::store" % DATA_T]
+        from .pub import publish_sites
+        stores = [bb for bb, t, gi, vi in publish_sites(F, r, DATA_T)]
         for (sbb, ssi, rv) in sids:
             fields = rv["fields"]
             sig = [deep_strip(e) for e in fl.operand(rv["ops"][fields.index("signal")], (sbb, ssi))]
@@ -151,7 +152,8 @@ def rule_c(ctx):
     for name, kind in (("signal_hook_registry::unregister", "remove"), ("signal_hook_registry::unregister_signal", "clear")):
         m = F.one(name)
         fl = flow(m)
-        stores = [(bb, t) for bb, t in m.calls() if t.get("f") is not None and F.inst[t["f"]].name == "signal_hook_registry::half_lock::WriteGuard::<'_, %s>::store" % DATA_T]
+        from .pub import publish_sites
+        stores = [(bb, t) for bb, t, gi, vi in publish_sites(F, m, DATA_T)]
         if len(stores) != 1:
             raise AnchorLost("%s: expected exactly one publish" % name)
         sbb, stt = stores[0]
